@@ -164,7 +164,11 @@ def kf_match(k, case):
                 if last != "code":
                     ends_out.add(name)
                 name = None
-        return bool(ends_out) and any(l["k"] == "call" and l["n"] in ends_out for l in case["prog"])
+        # what the finding looks like: the lines after the call are laid out in the caller's segment -- the build succeeds
+        # with them there, or fails because they are not allowed there; any other failure is not this finding
+        text = case["observed"].get("text", "") if isinstance(case.get("observed"), dict) else ""
+        manifest = case["observed"]["r"] == "ok" or "not allowed in" in text
+        return manifest and bool(ends_out) and any(l["k"] == "call" and l["n"] in ends_out for l in case["prog"])
     if kind == "org-zero-after-content":
         return (case["observed"]["r"] == "ok" and not case["expected"].get("ok")
                 and any(l["k"] == "org" and l["e"] == {"t": "num", "v": 0} for l in case["prog"]))
@@ -421,6 +425,24 @@ def check_c02(prop, tier, seed, devices):
                     prog[-1]["lab"] = "here"
                     observe_labels(prog, ["here"])
                     cases.append(Case(prog, tag="org-then-same-segment"))
+    # an origin set in one address space right before a switch to another, nothing being placed at that origin later on:
+    # the other space is not moved by it
+    # (an origin in the data segment counts as RAM usage in the specification whether or not something is placed there: not generated)
+    # (nor an origin in the code segment: the table that shows the label values is placed there)
+    for a, b in (("eeprom", "code"), ("eeprom", "data")):
+        for n in (0x100, 8, 0x61):
+            unit = lambda sg: instr("nop") if sg == "code" else data(1, E(7)) if sg == "eeprom" else byte(1)
+            prog = [seg(a), org(n), seg(b), dict(unit(b), lab="first"), dict(unit(b), lab="second")]
+            observe_labels(prog, ["first", "second"])
+            cases.append(Case(prog, tag="org-then-other-segment"))
+    # a macro that switches segment and sets an origin there before its first item, called from another segment
+    for segname, base in (("data", 0x90), ("eeprom", 0x20)):
+        body = [seg(segname), org(arg(0)), byte(arg(1), lab="") if segname == "data" else data(1, ARG(1)), seg("code")]
+        for pre in ([], [instr("nop")], [org(0x30), instr("nop")]):
+            prog = [line("macro", n="placed")] + copy.deepcopy(body) + [line("endm")] + copy.deepcopy(pre) + \
+                   [call("placed", E(base), E(2)), instr("ret", lab="behind"), seg(segname), dict(byte(1) if segname == "data" else data(1, E(9)), lab="after")]
+            observe_labels(prog, ["behind", "after"])
+            cases.append(Case(prog, tag="macro-layout"))
     return run_cases(prop, tier, seed, cases, devices, keyf=default_key, mc=mc,
                      extra=[pipeline_extra(sample=2500 if tier == "quick" else 20000, fixtures=True, suite=True, seed=seed)],
                      rule="all sequences up to length 3 (quick) / 4 (thorough) over a 16-symbol layout alphabet x 3 device classes, "
@@ -587,6 +609,14 @@ def check_c03(prop, tier, seed, devices):
                     else:
                         prog = [line("device", n=devname), label("target")] + gap + [instr("nop") for _ in range(-d)] + [instr(mn, *(ops_pre + [E(sym("target"))])), instr("ret")]
                     cases.append(Case(prog, tag="device"))
+    # out-of-range distances under devices whose flash is as small as the reach of rjmp: never wrapped around
+    for devname in ("ATmega8", "ATtiny85", "ATtiny2313", "ATtiny13", "ATmega48"):
+        for mn in ("rjmp", "rcall"):
+            for off in (2047, 2048, 2049, 2500, 4095, 4096, 4097, -2047, -2048, -2049, -2500, -4096, 1023, 1024, 1025, -1024, -1025):
+                tgt = binop("+", sym("pc"), lit(off)) if off >= 0 else binop("-", sym("pc"), lit(-off))
+                cases.append(Case([line("device", n=devname), instr("nop"), instr(mn, E(tgt)), instr("ret")], tag="far-device"))
+            for a in (0x7ff, 0x800, 0x801, 0xfff, 0x3ff, 0x400):
+                cases.append(Case([line("device", n=devname), instr(mn, E(a)), instr("ret")], tag="far-device"))
     # the distance comes from a .set variable that is (re)assigned while another segment is current
     for kind in (("brne", None), ("rjmp", None), ("rcall", None), ("brbc", 2)):
         mn, sbit = kind
@@ -841,6 +871,11 @@ def check_c10(prop, tier, seed, devices):
     hand += [[defr("tmp", 16), defr("tmp", 17), instr("ldi", E(sym("tmp")), E(1)), undef("tmp"), instr("nop")],
              [defr("tmp", 16), instr("ldi", E(sym("tmp")), E(1)), defr("tmp", 3), instr("mov", E(sym("tmp")), R(1)), instr("ldi", E(sym("tmp")), E(1))],
              [defr("tmp", 16), defr("tmp", 16), undef("tmp"), instr("inc", E(sym("tmp")))]]
+    # a reference in a condition to a name that is not known when the line is read fails the build
+    hand += [[line("if", e=binop("==", sym("later"), lit(1))), instr("nop"), line("else"), instr("ret"), line("endif"), equ("later", 1), instr("ldi", R(17), E(sym("later")))],
+             [line("if", e=sym("nothing")), instr("nop"), line("endif")],
+             [equ("known", 0), line("if", e=sym("known")), instr("nop"), line("elif", e=sym("missing")), instr("ret"), line("endif")],
+             [equ("known", 2), line("if", e=binop("==", sym("known"), lit(2))), instr("nop"), line("endif")]]
     # macros whose bodies consist of symbol directives only
     hand += [[setv("n", 0), line("macro", n="bump"), setv("n", binop("+", sym("n"), lit(1))), line("endm"), call("bump"), call("bump"), instr("ldi", R(16), E(sym("n")))],
              [defr("tmp", 16), line("macro", n="rel"), undef("tmp"), line("endm"), call("rel"), instr("inc", E(sym("tmp")))],
@@ -944,7 +979,7 @@ def cond_structures(n, depth):
     return block(n, depth)
 
 
-IF_FORMS = ["if0", "if1", "ifk1", "ifk2", "ifdef", "ifndef", "ifneg", "ifbig", "ifdiff", "ifdiv0", "ifnosym", "ifbadarg"]
+IF_FORMS = ["if0", "if1", "ifk1", "ifk2", "ifdef", "ifndef", "ifneg", "ifbig", "ifdiff", "ifdiv0", "ifnosym", "ifbadarg", "ifand", "ifor", "ifandz"]
 STMTS = ["mark", "msg", "garbage", "define", "mark", "labeluse"]
 
 
@@ -989,6 +1024,12 @@ def cond_program(struct, choice):
                 prog.append(line("if", e=binop("/", lit(1), binop("-", sym("kk"), lit(1)))))
             elif f == "ifnosym":
                 prog.append(line("if", e=binop("+", sym("nosuchsym"), lit(1))))
+            elif f == "ifand":                                                  # both hold, no bit in common
+                prog.append(line("if", e=binop("&&", sym("kk"), lit(2))))
+            elif f == "ifor":
+                prog.append(line("if", e=binop("||", binop("-", sym("kk"), lit(1)), lit(4))))
+            elif f == "ifandz":
+                prog.append(line("if", e=binop("&&", lit(6), binop("-", sym("kk"), lit(1)))))
             elif f == "ifbadarg":                                               # a line no grammar takes ('.if @0' outside a macro): counted all the same
                 prog.append(line("if", e=binop("==", arg(0), lit(1))))
             else:
@@ -1054,6 +1095,10 @@ def check_c08(prop, tier, seed, devices):
                 prog = cond_program(struct, ch)
                 texts = [l["txt"] for l in prog if l["k"] == "message"]
                 cases.append(Case(prog, tag="len%d" % n, msg_texts=texts))
+                if ci >= 2 and ci % 2 == 0:
+                    # the same program with comments on every line (texts with colons, directive words, parentheses)
+                    cases.append(Case(copy.deepcopy(prog), tag="len%dc" % n, msg_texts=texts,
+                                      spell=Spell(comment=rnd.choice([";", "//", "/*"]), ws=rnd.randrange(4), blank_before=rnd.randrange(3))))
                 if ci >= 2:
                     # the same program with (some of) its conditional directives in the '#' spelling
                     p2 = copy.deepcopy(prog)
@@ -1205,6 +1250,12 @@ def check_c15(prop, tier, seed, devices):
                     prog = [line("blank") for _ in range(shift)] + [line("macro", n="faulty"), instr("nop")] + copy.deepcopy(fl) + [instr("ret"), line("endm")] + \
                            copy.deepcopy(base[:callpos]) + [call("faulty")] + copy.deepcopy(base[callpos:])
                     cases.append(Case(prog, tag=kind + "-in-macro", chkline=True))
+                    if shift == 0 and fl[0]["k"] in ("call", "instr", "garbage"):
+                        # ... behind an origin / a segment round trip inside the body
+                        for mid in ([org(0x200)], [seg("eeprom"), data(1, E(1)), seg("code")]):
+                            prog = [line("macro", n="faulty"), instr("nop")] + copy.deepcopy(mid) + copy.deepcopy(fl) + [instr("ret"), line("endm")] + \
+                                   copy.deepcopy(base[:callpos]) + [call("faulty")] + copy.deepcopy(base[callpos:])
+                            cases.append(Case(prog, tag=kind + "-in-macro", chkline=True))
     # messages: placements of .message/.warning/.error around and inside taken / untaken branches
     slots = 6
     skeleton = lambda: [instr("nop"), line("if", e=lit(1)), instr("ldi", R(16), E(1)), line("else"), instr("ldi", R(16), E(2)), line("endif"),
@@ -1245,14 +1296,21 @@ def check_c15(prop, tier, seed, devices):
                     if l["k"] in CONDK and (mode == 0 or rnd.random() < 0.5):
                         l["pfx"] = "#"
                 cases.append(Case(q, tag="messages#", chkline=True, msg_texts=texts))
+    for nm, ncalls, sameargs in ((1, 1, True), (1, 2, True), (2, 3, True), (1, 3, False), (2, 2, False)):
+        for kindm in ("message", "warning"):
+            texts = ["macro note %d" % i for i in range(nm)]
+            body = [instr("nop")] + [line(kindm, txt=t) for t in texts] + [line("if", e=binop(">", arg(0), lit(0))), line("message", txt="cond note"), line("endif"), instr("ret")]
+            calls_ = [call("talk", E(1 if sameargs else k)) for k in range(ncalls)]
+            prog = [line("message", txt="top first"), line("macro", n="talk")] + body + [line("endm")] + calls_ + [line("warning", txt="top last"), instr("sleep")]
+            cases.append(Case(prog, tag="messages-in-macro", chkline=True, msg_texts=texts + ["cond note", "top first", "top last"]))
     return run_cases(prop, tier, seed, cases, devices, keyf=default_key,
-                     rule="5 valid base programs x every insertion position x %d single-line faults (syntax, unknown mnemonic, wrong kind, "
+                     rule="messages from macro bodies called one to three times with equal and different arguments; 5 valid base programs x every insertion position x %d single-line faults (syntax, unknown mnemonic, wrong kind, "
                           "out of range also by a multiple of 256 / 65536, undefined symbol in instruction/data/.set/.if/.elif also beside a deciding && / ||, zero divisor, misfit, string in .dw, "
                           "duplicate label, .error), each built as is and "
                           "shifted down by 7 lines; the error text must contain the specification's fault line as an integer token both times; "
                           "every fault also inside a macro body called once (the body's line is named); plus 2304 placements of .message/.warning/.error in and around taken and untaken branches, including .elif chains and nested chains, "
                           "in the '.' and the '#' spelling of the conditional directives" % len(fault_lines()),
-                     assumptions=["messages from macro bodies and line numbers inside included files are not checked (property silent)"])
+                     assumptions=["line numbers inside included files are not checked (property silent); messages from macro bodies are listed when the body is expanded, i.e. after the messages of the lines around the call"])
 
 
 CHECKS["C15"] = check_c15
@@ -1297,6 +1355,14 @@ def limit_cases(devname, d):
         r = R_ + delta
         if r >= 1:
             add("ram.org-reselect", [seg("data"), org(RS + r - 1), seg("data"), byte(1)])
+    # a macro that switches to a memory and sets the origin there, called from code
+    for delta in (-1, 0, 1):
+        r = R_ + delta
+        if r >= 1:
+            add("ram.macro-org", [line("macro", n="var"), seg("data"), org(arg(0)), byte(arg(1)), seg("code"), line("endm"), instr("nop"), call("var", E(RS + r - 1), E(1)), instr("ret")])
+        m = E_ + delta
+        if m >= 1:
+            add("eeprom.macro-org", [line("macro", n="ee"), seg("eeprom"), org(arg(0)), data(1, ARG(1)), seg("code"), line("endm"), instr("nop"), call("ee", E(m - 1), E(7)), instr("ret")])
     # a memory filled exactly in two or three blocks
     for delta in (-1, 0, 1):
         n = E_ + delta
@@ -1671,6 +1737,10 @@ def line_kind_programs():
     P.append(("instr.rk", [k1, instr("ldi", R(16), E(fn("low", binop("+", sym("k1"), lit(0x112)))))]))
     P.append(("instr.rk2", [k1, instr("subi", R(20), E(binop("&", binop("<<", sym("k1"), lit(1)), lit(0xf0))))]))
     P.append(("instr.neg", [instr("ldi", R(16), E(un("-", lit(3))))]))
+    chain = lit(1)
+    for i in range(127):
+        chain = binop(("+", "/", "*", "-")[i % 4], chain, lit(1))
+    P.append(("instr.chain", [instr("ldi", R(16), E(binop("&", chain, lit(255)))), data(2, E(binop("&", copy.deepcopy(chain), lit(0x7fff))))]))     # as many operators as a line may have
     P.append(("instr.par", [k1, instr("ldi", R(16), E(binop("*", binop("+", sym("k1"), lit(1)), lit(2)))), instr("ldi", R(17), E(par(par(lit(0x21))))),
                             instr("cpi", R(18), E(fn("high", fn("lwrd", binop("-", lit(0x12345), par(sym("k1")))))))]))
     P.append(("dir.par", [k1, data(2, E(binop("*", binop("+", lit(1), lit(2)), lit(3))), E(fn("low", lit(0x105)))), line("if", e=par(binop("==", sym("k1"), lit(0x41)))),
